@@ -36,6 +36,11 @@ def check(repo, col, tier):
     col.rule("R-C10-sentinel", "padded index reaches a scatter only through mode='drop' + remap", 2)
     col.rule("R-C10-write-back", "write_trainables stores the simulated values", 4)
     col.rule("R-C10-pair", "trainable_params / indices_set_by_trainables change together", 3)
+    from . import c11 as _c11, c19 as _c19
+    col.rule("R-C10-select", "a synapse-type name selects the view's synapses of that type (by name, on the base's registry)", 3)
+    _c11._named(repo, col, "R-C10-select")
+    col.rule("R-C10-classify", "a trainable is intersected with the view's rows of its own table (nodes vs edges)", 3)
+    _c19._classify(repo, col, "R-C10-classify")
     col.rule("R-C10-viewtrain", "a view shows / deletes its own half of the trainables", 5)
     col.rule("R-C10-tojax", "every simulation starts from the current tables", 4)
     cl = idx.compute_slots(repo, col, "R-C10-scatter", emit=("jaxedges", "pstate"))
@@ -258,36 +263,46 @@ def _rows(repo, col, R="R-C10-rows"):
     fi = repo.method("Module", "set")
     ex = idx.expander(repo, fi)
     st = [s for s in ex.stores if s.kind == "sub" and s.base.op == "attr" and s.base.name == "loc"]
-    if len(st) < 2:
+    if len(st) < 1:
         raise AnalysisError("Module.set: stores through .loc not found")
-    for s in st:
-        tbl = s.base.args[0]
-        kind = table_kind(tbl)
-        sel = s.key
-        ok_shape = sel.op == "tuple" and len(sel.args) == 2
-        rows, colk = (sel.args if ok_shape else (None, None))
-        want_rows = "_nodes_in_view" if kind == "nodes" else "_edges_in_view"
-        base_ok = tbl.op == "attr" and tbl.args[0].op == "attr" and tbl.args[0].name == "base"
-        col.check(base_ok, R, fi, f"set: writes the base {kind} table", "self.base.<table>.loc[...]",
-                  f"set writes {tbl.short()}", node=s.node)
-        ok = ok_shape and rows.op == "sub" and rows.args[0].op == "attr" and rows.args[0].name == want_rows \
-            and rows.args[0].args[0].op == "param"
-        col.check(ok, R, fi, f"set: rows of the {kind} table are the rows in view",
-                  f"self.{want_rows}[not_nan]", f"rows selector is {rows.short() if rows is not None else '?'}", node=s.node)
-        if ok:
-            mask = rows.args[1]
-            m_ok = _is_notna_of(mask, kind, colk)
-            col.check(m_ok, R, fi, f"set: {kind} rows restricted to entries where the key is set",
-                      "~self.<table>[key].isna()", f"mask is {mask.short()}", node=s.node)
-            col.check(colk.op == "param" and colk.name == fi.params[1], R, fi, f"set: column written is the key ({kind})",
-                      "key", f"column is {colk.short()}", node=s.node)
-            col.check(s.value.op == "param" and s.value.name == fi.params[2], R, fi, f"set: value written is the given value ({kind})",
-                      "val", f"value is {s.value.short()}", node=s.node)
-        # guarded by membership of the key in this table's columns
-        g_ok = any(kt is not None and kt[1] and kt[0] == ("node" if kind == "nodes" else "edge")
-                   for kt in (key_test(g) for g in s.guards))
-        col.check(g_ok, R, fi, f"set: {kind} store guarded by `key in self.{kind}.columns`", "guard present",
-                  "the store is not guarded by the membership of the key in that table", node=s.node)
+    # decided per key class: which store runs for a node key / an edge key (its guards), and what its table / rows / mask become
+    # when every key-class conditional inside them is resolved for that class (one store per table, or one store over a table
+    # chosen by the key -- the same thing)
+    for kc in idx.KCS:
+        kind = "nodes" if kc == "node" else "edges"
+        runs = [s for s in st if not any(kt is not None and ((kt[0] == kc) != kt[1]) for kt in (key_test(g) for g in s.guards))]
+        runs = [s for s in runs if table_kind(_pick_all(s.base.args[0], kc)) == kind or len(st) == 1 or
+                not any(kt is not None for kt in (key_test(g) for g in s.guards))]
+        if not runs:
+            col.bad(R, fi, f"set: a {kc} key is written to the base {kind} table", f"no store runs for a {kc} key", node=fi.node)
+            continue
+        for s in runs:
+            tbl = _pick_all(s.base.args[0], kc)
+            sel = _pick_all(s.key, kc)
+            ok_shape = sel.op == "tuple" and len(sel.args) == 2
+            rows, colk = (sel.args if ok_shape else (None, None))
+            want_rows = "_nodes_in_view" if kind == "nodes" else "_edges_in_view"
+            base_ok = tbl.op == "attr" and tbl.name == kind and tbl.args[0].op == "attr" and tbl.args[0].name == "base"
+            col.check(base_ok, R, fi, f"set: writes the base {kind} table", "self.base.<table>.loc[...]",
+                      f"for a {kc} key set writes {tbl.short()}", node=s.node)
+            ok = ok_shape and rows.op == "sub" and rows.args[0].op == "attr" and rows.args[0].name == want_rows \
+                and rows.args[0].args[0].op == "param"
+            col.check(ok, R, fi, f"set: rows of the {kind} table are the rows in view",
+                      f"self.{want_rows}[not_nan]", f"rows selector is {rows.short() if rows is not None else '?'}", node=s.node)
+            if ok:
+                mask = rows.args[1]
+                m_ok = _is_notna_of(mask, kind, colk)
+                col.check(m_ok, R, fi, f"set: {kind} rows restricted to entries where the key is set",
+                          "~self.<table>[key].isna()", f"mask is {mask.short()}", node=s.node)
+                col.check(colk.op == "param" and colk.name == fi.params[1], R, fi, f"set: column written is the key ({kind})",
+                          "key", f"column is {colk.short()}", node=s.node)
+                col.check(s.value.op == "param" and s.value.name == fi.params[2], R, fi, f"set: value written is the given value ({kind})",
+                          "val", f"value is {s.value.short()}", node=s.node)
+            # the table is chosen by the membership of the key in that table's columns: a guard of the store, or a conditional inside
+            g_ok = any(kt is not None and kt[1] and kt[0] == kc for kt in (key_test(g) for g in s.guards)) or \
+                _pick_all(s.base.args[0], kc).key() != s.base.args[0].key()
+            col.check(g_ok, R, fi, f"set: {kind} store guarded by `key in self.{kind}.columns`", "guard present",
+                      "the store is not guarded by the membership of the key in that table", node=s.node)
 
     # ---- data_set
     fi = repo.method("Module", "data_set")
